@@ -155,7 +155,18 @@ def apply_fn(facts, f, args):
                     return args[n[1] - 2]
                 return None
             # closure parameters first, then captured variables (whose trees may mention the PARENT's parameters)
-            return resolve_upvars(facts, clo, subst(ret_choice(facts, clo), rep))
+            r = subst(ret_choice(facts, clo), rep)
+            caps = f[3] if len(f) > 3 and isinstance(f[3], tuple) else ()
+
+            def cap(n):
+                # the captures listed at the closure's creation site, as seen from the body the closure value was read in (for a helper
+                # spliced into its caller these are the caller's values, not the helper's parameters)
+                if n[0] == 'upvar' and isinstance(n[1], int) and n[1] < len(caps) and isinstance(caps[n[1]], tuple):
+                    return nosite(peel(caps[n[1]]))
+                return None
+            if caps:
+                r = subst(r, cap)
+            return resolve_upvars(facts, clo, r)
     if isinstance(f, tuple) and f and f[0] == 'fn':
         from .facts import norm_path
         path = norm_path(f[1])
@@ -175,6 +186,9 @@ def seq_of_iter(facts, body, t, level=0):
         iv = init_value(body, t)
         if iv != t:
             return seq_of_iter(facts, body, iv, level)
+    r = _seq_of_choice(facts, body, t, level)
+    if r is not None:
+        return r
     if isinstance(t, tuple) and t and t[0] == 'call' and t[2]:
         n = last_seg(t[1])
         a = t[2]
@@ -259,6 +273,43 @@ def seq_of_iter(facts, body, t, level=0):
     return [Seg('each', src=nosite(peel(t)), body=body, level=level)]
 
 
+def _seq_of_choice(facts, body, t, level):
+    """a local that receives one of several collections on exclusive branches (`let v = match mode { A => a.collect(), B =>
+    b.collect() }`, or the result of an inlined helper with that shape): the segments of every branch, each under its branch
+    conditions -- since the branches exclude one another the concatenation of the guarded segments is the choice"""
+    if not (isinstance(t, tuple) and t and ((t[0] == 'var' and len(t) > 2) or t[0] == 'phi')):
+        return None
+    local = t[2] if t[0] == 'var' else t[1]
+    whole, partial = defs_of(body, local)
+    if partial or len(whole) < 2:
+        return None
+    bbs = [d.bb for d in whole]
+    if len(set(bbs)) != len(bbs) or any(a != b and cfg.dominates(body, a, b) for a in bbs for b in bbs):
+        return None
+    dom = cfg.dominators(body)
+    common = None
+    for x in sorted(set.intersection(*[set(dom[b]) for b in bbs]), key=lambda x: len(dom[x])):
+        common = x   # the deepest common dominator
+    if common is None or common in bbs:
+        return None
+    # exclusive: no definition can be followed by another one without passing the branch point again
+    if any(b in cfg.reach_from_succ(body, a, removed_blocks=(common,)) for a in bbs for b in bbs if a != b):
+        return None
+    z = symbolizer(body)
+    out = []
+    for d in whole:
+        v = nosite(simplify(z.rvalue(d.rv, 0, (local,)) if hasattr(d, 'rv') else z.call(d, 0, (local,))))
+        segs = seq_of(facts, body, v, _novar=local, level=level) if level else seq_of(facts, body, v, _novar=local)
+        if segs is None:
+            return None
+        conds = _conds_between(body, common, d.bb)
+        for sg in segs:
+            sg = sg.copy()
+            sg.conds = conds + sg.conds
+            out.append(sg)
+    return out
+
+
 def iter_init(body, t, f=None):
     """the iterator expression a loop pulls from: the mutable `iter` variable replaced by its initial value (one variable
     at a time, applying the rewriting f -- item substitution of the enclosing loops -- before going deeper)"""
@@ -314,6 +365,38 @@ def item_subst_fn(body, next_term, level):
     return rep
 
 
+def abort_guard(body, g):
+    """every other way out of the guard's block ends in an error exit -- a return of Err(..) / None / the `?` residual, or a
+    panic -- and never rejoins: on every completed construction the guard held, so it is a precondition of success, not a choice
+    between sequences. (A branch that returns the value built so far is NOT an error exit: it stays a condition.)"""
+    cache = body.__dict__.setdefault('_abort_cache', {})
+    key = (g.block, g.target)
+    if key in cache:
+        return cache[key]
+    others = [w for w in body.succ[g.block] if w != g.target and not body.blocks[w].cleanup]
+    res = False
+    if others:
+        # path-sensitive in the constants and Result/Option variants assigned on the way (`r = Err(e); .. r?` only takes the residual arm)
+        reach = set()
+        for w in others:
+            reach |= cfg.reach_const(body, w)
+        if g.block not in reach and g.target not in reach:
+            from .sym import ret_values
+            rets = [(v, bb) for v, bb in ret_values(body) if bb in reach]
+            has_return = any(body.blocks[x].term.kind == 'return' for x in reach)
+
+            def errlike(v):
+                v = peel(v)
+                if not isinstance(v, tuple) or not v:
+                    return False
+                if v[0] == 'agg' and v[1] == 'adt' and (v[2].endswith('Result::Err') or v[2].endswith('Option::None')):
+                    return True
+                return v[0] == 'call' and last_seg(v[1]) == 'from_residual'
+            res = (not has_return) or (bool(rets) and all(errlike(v) for v, bb in rets))
+    cache[key] = res
+    return res
+
+
 def _conds_between(body, outer_bb, bb, skip_next=()):
     """guards that hold at bb but not at outer_bb, as cond pairs; variant guards become (('is', tree, names), True).
     Exit conditions of loops that were left before bb are facts, not choices, and are dropped."""
@@ -326,6 +409,8 @@ def _conds_between(body, outer_bb, bb, skip_next=()):
         if (g.block, g.target) in base:
             continue
         if any(g.block in l.blocks and g.target not in l.blocks and bb not in l.blocks for l in loops):
+            continue
+        if abort_guard(body, g):
             continue
         r = guard_variants(body, g)
         if r is not None:
@@ -532,20 +617,44 @@ def seq_of_var(facts, body, local):
     return segs + build(writers, init_bb, [], 0)
 
 
-def seq_of(facts, body, tree, _novar=None):
+def seq_of(facts, body, tree, _novar=None, level=0):
     """SEQ normal form of the collection denoted by `tree` in `body`"""
     t = peel(tree)
+    if isinstance(t, tuple) and t and t[0] == 'unwrap':
+        # the success payload of a Result / Option: `x?`, `x.unwrap()`; when x is a local set to Ok(v) on one branch and to
+        # errors on the others (the shape of a fallible helper), the collection is v
+        x = peel(t[1])
+        if isinstance(x, tuple) and x and x[0] == 'agg' and x[1] == 'adt' and (x[2].endswith('Result::Ok') or x[2].endswith('Option::Some')):
+            return seq_of(facts, body, x[3][0], _novar, level)
+        if isinstance(x, tuple) and x and ((x[0] == 'var' and len(x) > 2) or x[0] == 'phi'):
+            local = x[2] if x[0] == 'var' else x[1]
+            whole, partial = defs_of(body, local)
+            z = symbolizer(body)
+            ok = []
+            for d in (whole if not partial else ()):
+                v = peel(nosite(simplify(z.rvalue(d.rv, 0, (local,)) if hasattr(d, 'rv') else z.call(d, 0, (local,)))))
+                if isinstance(v, tuple) and v and v[0] == 'agg' and v[1] == 'adt' and (v[2].endswith('Result::Ok') or v[2].endswith('Option::Some')):
+                    ok.append(v[3][0])
+                elif isinstance(v, tuple) and v and ((v[0] == 'agg' and v[1] == 'adt' and (v[2].endswith('Result::Err') or v[2].endswith('Option::None')))
+                                                     or (v[0] == 'call' and last_seg(v[1]) == 'from_residual')):
+                    continue
+                else:
+                    ok = None
+                    break
+            if ok is not None and len(ok) == 1:
+                return seq_of(facts, body, ok[0], _novar, level)
+        return seq_of(facts, body, t[1], _novar, level)
     if isinstance(t, tuple) and t and t[0] == 'var' and len(t) > 2 and t[2] != _novar:
         return seq_of_var(facts, body, t[2])
     if isinstance(t, tuple) and t and t[0] == 'call' and t[2]:
         n = last_seg(t[1])
         if n in ('collect', 'from_iter', 'collect_vec', 'join', 'concat'):
-            return seq_of_iter(facts, body, t[2][0])
+            return seq_of_iter(facts, body, t[2][0], level)
         if n in ('to_vec', 'to_owned', 'clone', 'into_vec', 'to_string', 'into', 'from'):
-            return seq_of(facts, body, t[2][0], _novar)
+            return seq_of(facts, body, t[2][0], _novar, level)
         if n == 'from_elem':
-            return seq_of_iter(facts, body, t)
+            return seq_of_iter(facts, body, t, level)
     el = _vec_macro_elems(body, tree)
     if el is not None and isinstance(t, tuple) and t and t[0] == 'call' and last_seg(t[1]) in ('into_vec', 'box_assume_init_into_vec_unsafe'):
         return [Seg('one', elem=e, body=body) for e in el]
-    return [Seg('each', src=nosite(peel(t)), body=body)]
+    return [Seg('each', src=nosite(peel(t)), body=body, level=level)]
